@@ -59,6 +59,28 @@ Proof.
 Qed.
 Print Assumptions C04_interleaving_independent_partial.
 
+(** (a') the same including the tree build: the environment may also act between the atoms of the query while the
+    match tree is built (allocate, move other cursors, add / evict cache entries coherently).  One search under
+    such interference during build AND loop returns exactly the documents satisfying its query. *)
+Theorem C04_search_under_interference_partial : forall envb envl cf s q st k t st' k',
+  build_env envb cf s (simp s q) st k = (t, st', k') ->
+  (forall i x, length (st_heap x) <= length (st_heap (envb i x))) ->
+  (forall i x, cache_ok s (st_cache x) -> cache_ok s (st_cache (envb i x))) ->
+  (forall a, In a (leaves t) -> forall i x, a < length (st_heap x) ->
+             get_cursor (st_heap (envb i x)) a = get_cursor (st_heap x) a) ->
+  (forall i h, (length h <= length (envl i h)) /\
+               (forall a, In a (leaves t) -> get_cursor (envl i h) a = get_cursor h a)) ->
+  cache_ok s (st_cache st) ->
+  fst (doc_loop_env envl (S (ndocs s)) (ndocs s) t 0 (st_heap st') []) = filter (qeval s q) (seq 0 (ndocs s)).
+Proof.
+  intros envb envl cf s q st k t st' k' Hb Hg Hc Hk Hl Hok.
+  destruct (build_env_spec envb cf s (simp s q) st k t st' k' Hb Hg Hc Hk Hok) as (B1 & B2 & _).
+  rewrite (doc_loop_env_spec envl (ndocs s) t Hl (S (ndocs s)) 0 (st_heap st') (false, 0) []);
+    [| intros a Ha; destruct (B1 a Ha) as [R1 R2]; split; [lia | exact R2] | reflexivity | lia].
+  rewrite Nat.sub_0_r. cbn [app]. apply (matches_reference s q t B2).
+Qed.
+Print Assumptions C04_search_under_interference_partial.
+
 (** (b) the steps of a search satisfy what the others rely on: they keep the heap's length and only move the
     cursors of the search's own nodes — and the repaired newMatchTree gives every search its own nodes. *)
 Theorem C04_search_steps_are_private : forall t t' h d,
@@ -104,3 +126,14 @@ Example C04_nonvacuous_interleaving :
   par_search wit_cf wit_shard (QMeta 1) (QAnd (QMeta 1) (QAtom (fun d => Nat.eqb d 1 || Nat.eqb d 3)))
              [true; false; false; true; true; false; true; false; true] fresh = ([0; 1; 2], [1]).
 Proof. vm_compute. reflexivity. Qed.
+
+(** an environment that, before every atom, allocates a foreign node with a moved cursor and empties the cache,
+    and before every loop iteration allocates another foreign node: the search is unaffected *)
+Example C04_nonvacuous_interference :
+  let envb := fun (_ : nat) (x : state) => {| st_heap := st_heap x ++ [(true, 7)]; st_cache := []; st_step := st_step x |} in
+  let envl := fun (_ : nat) (h : heap) => h ++ [(true, 3)] in
+  let q := QAnd (QMeta 1) (QOr (QMeta 1) (QAtom (fun d => Nat.eqb d 3))) in
+  let '(t, st', _) := build_env envb wit_cf wit_shard (simp wit_shard q) fresh 0 in
+  leaves t = [1; 3; 5] /\
+  fst (doc_loop_env envl 5 4 t 0 (st_heap st') []) = [0; 1; 2].
+Proof. vm_compute. split; reflexivity. Qed.
